@@ -3,8 +3,12 @@
 package main
 
 import (
+	"bytes"
+	"context"
 	"fmt"
+	"github.com/google/mtail/internal/exporter"
 	"math"
+	"regexp"
 	"sort"
 	"strconv"
 	"strings"
@@ -170,6 +174,97 @@ func c21Run(r *runCtx, id string, f []string) {
 			r.trivial(id)
 		}
 		r.stat("direct")
+	case "expo":
+		// histogram h by k: two label sets with their own observations, read back through the
+		// Prometheus exporter: every label set is exported with its own cumulative counts
+		decs := strings.Split(f[1], ",")
+		bounds := unfbitsList(f[2])
+		obsOf := map[string][]float64{"a": unfbitsList(f[3]), "b": unfbitsList(f[4])}
+		prog := "histogram h by k buckets " + strings.Join(decs, ", ") + "\n/^(\\w) (\\S+)$/ {\n  h[$1] = $2\n}\n"
+		c, _ := compiler.New()
+		obj, err := c.Compile("c21.mtail", strings.NewReader(prog))
+		if err != nil || obj == nil {
+			r.obs(id, "reject")
+			r.ok(id)
+			r.trivial(id)
+			return
+		}
+		var m *metrics.Metric
+		for _, mm := range obj.Metrics {
+			if mm.Name == "h" {
+				m = mm
+			}
+		}
+		st := metrics.NewStore()
+		_ = st.Add(m)
+		for _, k := range []string{"a", "b"} {
+			d, derr := m.GetDatum(k)
+			if derr != nil {
+				r.obs(id, "ERR")
+				r.fail(id, "harness", "%v", derr)
+				return
+			}
+			for i, v := range obsOf[k] {
+				datum.GetBuckets(d).Observe(v, time.Unix(int64(i+1), 0))
+			}
+		}
+		e, _ := exporter.New(context.Background(), st, exporter.Hostname("h"))
+		var buf bytes.Buffer
+		if werr := e.Write(&buf); werr != nil {
+			r.obs(id, "ERR")
+			r.fail(id, "exported-counts", "the Prometheus export fails: %v", werr)
+			return
+		}
+		got := map[string]map[string]string{"a": {}, "b": {}}
+		re := regexp.MustCompile(`^h_bucket\{k="(\w)",(?:prog="[^"]*",)?le="([^"]+)"\} (\d+)$`)
+		for _, l := range strings.Split(buf.String(), "\n") {
+			if mt := re.FindStringSubmatch(l); mt != nil {
+				got[mt[1]][mt[2]] = mt[3]
+			}
+		}
+		var parts, bad []string
+		for _, k := range []string{"a", "b"} {
+			var cs []string
+			cumWant := uint64(0)
+			all := append(append([]float64{}, bounds...), math.Inf(1))
+			if len(all) > 0 && all[0] <= 0 {
+				all = all[1:] // the recorded finding: a first bound <= 0 is not exported
+			}
+			for bi, ub := range all {
+				// observations this bound's bucket takes: the first bound at least the value
+				n := uint64(0)
+				for _, v := range obsOf[k] {
+					idx := len(all) - 1
+					for j, u := range all {
+						if v <= u {
+							idx = j
+							break
+						}
+					}
+					if idx == bi {
+						n++
+					}
+				}
+				cumWant += n
+				le := strconv.FormatFloat(ub, 'g', -1, 64)
+				if math.IsInf(ub, 1) {
+					le = "+Inf"
+				}
+				g := got[k][le]
+				cs = append(cs, fbits(ub)+":"+g)
+				if g != strconv.FormatUint(cumWant, 10) {
+					bad = append(bad, fmt.Sprintf("label set %s, le=%s: exported %q, its own observations give %d", k, le, g, cumWant))
+				}
+			}
+			parts = append(parts, k+"="+strings.Join(cs, ","))
+		}
+		r.obs(id, "%s", strings.Join(parts, " "))
+		if len(bad) > 0 {
+			r.fail(id, "exported-counts", "declared %s: %s", f[1], strings.Join(bad[:min(3, len(bad))], "; "))
+		} else {
+			r.ok(id)
+		}
+		r.stat("expo")
 	case "decl":
 		decs := strings.Split(f[1], ",")
 		bounds := unfbitsList(f[2])
@@ -322,6 +417,20 @@ func init() {
 						g.emit("decl", strings.Join(ds, ","), fbitsList(bs), fbitsList([]float64{v}))
 					}
 				}
+			}
+			// two label sets of one histogram with different observations, through the exporter
+			for i, bs := range [][]float64{{1, 2, 4}, {0.5, 1, 2.5, 10}, {1, 2}} {
+				ds := make([]string, len(bs))
+				for k, b := range bs {
+					ds[k] = dec(b)
+				}
+				va := []float64{0.25, 1, 1, 3, 100}
+				vb := []float64{2, 2, 2.5, 0.75, 9, 9, 9}
+				if i == 2 {
+					va, vb = []float64{1}, []float64{5, 5, 5}
+				}
+				g.emit("expo", strings.Join(ds, ","), fbitsList(bs), fbitsList(va), fbitsList(vb))
+				g.emit("expo", strings.Join(ds, ","), fbitsList(bs), fbitsList(vb), fbitsList(va))
 			}
 			// rejected declarations
 			g.emit("decl", "1", fbitsList([]float64{1}), ".")
